@@ -1073,6 +1073,19 @@ class _Normalise(ast.NodeTransformer):
             if comp is not None:
                 stmts = stmts[:i] + [comp] + stmts[i + 2:]
                 continue
+            ta = self._split_tuple_assign(st)
+            if ta is not None:
+                stmts = stmts[:i] + ta + stmts[i + 1:]
+                continue
+            self._expand_star_locals(st, stmts[:i])
+            dm = self._divmod(st)
+            if dm is not None:
+                stmts = stmts[:i] + dm + stmts[i + 1:]
+                continue
+            wc = self._while_counter(st)
+            if wc is not None:
+                stmts = stmts[:i] + [wc] + stmts[i + 1:]
+                continue
             unrolled = self._unroll(st, stmts[:i])
             if unrolled is not None:
                 stmts = stmts[:i] + unrolled + stmts[i + 1:]
@@ -1088,6 +1101,107 @@ class _Normalise(ast.NodeTransformer):
             out.append(st)
             i += 1
         return out
+
+    @staticmethod
+    def _split_tuple_assign(st):
+        """`a, b = X, Y` (side-effect-free X, Y; no target used on the right)  ->  `a = X`, `b = Y`"""
+        if not (isinstance(st, ast.Assign) and len(st.targets) == 1 and isinstance(st.targets[0], ast.Tuple) and isinstance(st.value, ast.Tuple) and len(st.targets[0].elts) == len(st.value.elts) >= 2):
+            return None
+        tg, vs = st.targets[0].elts, st.value.elts
+        if not all(isinstance(t, ast.Name) for t in tg):
+            return None
+        for j, v in enumerate(vs):
+            if any(isinstance(x, (ast.Await, ast.NamedExpr, ast.Starred, ast.Yield)) for x in ast.walk(v)):
+                return None
+            # sequential assignment is the same as the parallel one when no earlier target is read by a later value
+            earlier = {t.id for t in tg[:j]}
+            if any(isinstance(x, ast.Name) and x.id in earlier for x in ast.walk(v)):
+                return None
+        out = []
+        for t, v in zip(tg, vs):
+            a = ast.Assign(targets=[ast.Name(id=t.id, ctx=ast.Store())], value=v)
+            ast.copy_location(a, st)
+            ast.fix_missing_locations(a)
+            out.append(a)
+        return out
+
+    @staticmethod
+    def _expand_star_locals(st, before):
+        """`f(*t)` where t is a local bound just before (same block) to a literal tuple of plain expressions: `f(a, b, c)`"""
+        if not isinstance(st, (ast.Expr, ast.Assign, ast.Return, ast.AnnAssign, ast.AugAssign)):
+            return
+        lits = {}
+        for b in before:
+            for x in ast.walk(b):
+                if isinstance(x, ast.Name) and isinstance(x.ctx, ast.Store):
+                    lits.pop(x.id, None)
+            if isinstance(b, ast.Assign) and len(b.targets) == 1 and isinstance(b.targets[0], ast.Name) and isinstance(b.value, (ast.Tuple, ast.List)) and not any(isinstance(e, ast.Starred) for e in b.value.elts):
+                lits[b.targets[0].id] = b.value
+        if not lits:
+            return
+        for c in ast.walk(st):
+            if isinstance(c, ast.Call) and any(isinstance(a, ast.Starred) and isinstance(a.value, ast.Name) and a.value.id in lits for a in c.args):
+                new = []
+                for a in c.args:
+                    if isinstance(a, ast.Starred) and isinstance(a.value, ast.Name) and a.value.id in lits:
+                        new.extend(copy.deepcopy(e) for e in lits[a.value.id].elts)
+                    else:
+                        new.append(a)
+                c.args = new
+                ast.fix_missing_locations(c)
+
+    @staticmethod
+    def _divmod(st):
+        """`q, r = divmod(a, b)` with side-effect-free a, b  ->  `q = a // b`, `r = a % b`"""
+        if not (isinstance(st, ast.Assign) and len(st.targets) == 1 and isinstance(st.targets[0], ast.Tuple) and len(st.targets[0].elts) == 2 and all(isinstance(x, ast.Name) for x in st.targets[0].elts)):
+            return None
+        v = st.value
+        if not (isinstance(v, ast.Call) and _dotted(v.func) == "divmod" and len(v.args) == 2 and not v.keywords and all(_is_simple_expr(a) for a in v.args)):
+            return None
+        qn, rn = st.targets[0].elts
+        names = {x.id for a in v.args for x in ast.walk(a) if isinstance(x, ast.Name)}
+        if qn.id in names or rn.id in names:
+            return None
+        out = [ast.Assign(targets=[ast.Name(id=qn.id, ctx=ast.Store())], value=ast.BinOp(left=copy.deepcopy(v.args[0]), op=ast.FloorDiv(), right=copy.deepcopy(v.args[1]))),
+               ast.Assign(targets=[ast.Name(id=rn.id, ctx=ast.Store())], value=ast.BinOp(left=copy.deepcopy(v.args[0]), op=ast.Mod(), right=copy.deepcopy(v.args[1])))]
+        for o in out:
+            ast.copy_location(o, st)
+            for y in ast.walk(o):
+                if not hasattr(y, "lineno"):
+                    ast.copy_location(y, st)
+            ast.fix_missing_locations(o)
+        return out
+
+    @staticmethod
+    def _while_counter(st):
+        """`while n > 0: BODY; n -= 1` (n touched nowhere else in the body, no break/continue/else)  ->  `for _ in range(n): BODY`"""
+        if not (isinstance(st, ast.While) and not st.orelse and isinstance(st.test, ast.Compare) and len(st.test.ops) == 1):
+            return None
+        l, op, r = st.test.left, st.test.ops[0], st.test.comparators[0]
+        if isinstance(l, ast.Name) and isinstance(r, ast.Constant) and r.value == 0 and isinstance(op, ast.Gt):
+            n = l.id
+        elif isinstance(r, ast.Name) and isinstance(l, ast.Constant) and l.value == 0 and isinstance(op, ast.Lt):
+            n = r.id
+        else:
+            return None
+        decs = [b for b in st.body if isinstance(b, ast.AugAssign) and isinstance(b.target, ast.Name) and b.target.id == n and isinstance(b.op, ast.Sub) and isinstance(b.value, ast.Constant) and b.value.value == 1]
+        if len(decs) != 1 or (st.body[0] is not decs[0] and st.body[-1] is not decs[0]):
+            return None
+        rest = [b for b in st.body if b is not decs[0]]
+        for b in rest:
+            for x in ast.walk(b):
+                if isinstance(x, ast.Name) and x.id == n:
+                    return None
+                if isinstance(x, (ast.Break, ast.Continue)):
+                    return None
+        if not rest:
+            return None
+        loop = ast.For(target=ast.Name(id="_", ctx=ast.Store()), iter=ast.Call(func=ast.Name(id="range", ctx=ast.Load()), args=[ast.Name(id=n, ctx=ast.Load())], keywords=[]), body=rest, orelse=[])
+        ast.copy_location(loop, st)
+        for y in (loop.target, loop.iter, loop.iter.func, loop.iter.args[0]):
+            ast.copy_location(y, st)
+        ast.fix_missing_locations(loop)
+        return loop
 
     @staticmethod
     def _unroll(st, before=()):
@@ -1572,6 +1686,8 @@ class _Walrus(ast.NodeTransformer):
             for ch in ast.iter_child_nodes(e):
                 if isinstance(ch, ast.expr):
                     post(ch)
+                elif isinstance(ch, ast.keyword):
+                    post(ch.value)
             if isinstance(e, (ast.Call, ast.Await)):
                 order.append(("effect", e))
 
